@@ -9,6 +9,9 @@ source is the regenerated list of every `range` over a map-typed expression in
 martian/syntax and martian/core (go/types) compared with the committed reviewed
 classification corpus/C10/map_range_sites.json.
 -/
+import Martian.ForkOrder
+import Proofs.ForkOrder
+import Proofs.ForkOrderBij
 import Martian.Determinism
 import Martian.DeterminismAccum
 import Proofs.Determinism
@@ -509,5 +512,108 @@ example : callModeIn ([] : List (Nat × Option Mode)) = Mode.null := by decide
 example : ∀ p ∈ [([7], 1), ([8], 1)], ∀ q ∈ [([7], 1), ([8], 1)], (fun _ => [1]) p = (fun _ : Key × Nat => [1]) q → p.2 = q.2 := by decide
 example : eraseAll [([1], 1), ([2], 2), ([3], 3)] [[3], [1]] = [([2], 2)] := by decide
 example : ([5] : List Nat).length ≤ 1 := by decide
+
+
+/-! ## Fork enumeration: which forks a node has, and in which ORDER they are listed
+
+Model `Martian/ForkOrder.lean`: `MakeForkIds` (product of the fork roots, first root fastest;
+static map keys sorted), `expandStaticForks` and the run-time `Node.expandForks` (breadth-first
+processing of the growing list: first element in place, the others appended).  Tied to the real
+`MakeForkIds` / `Node.forks` by the differential `C10.forkorder`. -/
+
+open Martian.ForkOrder in
+/-- C10: the list of forks does not depend on the order in which Go hands over the keys of any
+map involved — neither those of the static roots nor those of any nested / run-time source. -/
+theorem forkOrder_map_order_independent (r₁ r₂ : List Root) (i₁ i₂ : Inner)
+    (hr : RootsEquiv r₁ r₂) (hi : ∀ j pre, Elems.Equiv (i₁ j pre) (i₂ j pre)) :
+    forkOrder r₁ i₁ = forkOrder r₂ i₂ := forkOrder_congr hr hi
+
+open Martian.ForkOrder in
+example : RootsEquiv [Root.static (.keys [[98], [97]]), Root.dyn] [Root.static (.keys [[97], [98]]), Root.dyn] :=
+  .cons (.static (.keys (by decide))) (.cons .dyn .nil)
+
+open Martian.ForkOrder in
+/-- the same for the run-time expansion of a list of forks -/
+theorem expandRuntime_map_order_independent (n : Nat) (i₁ i₂ : Inner) (forks : List Fork)
+    (hi : ∀ j pre, Elems.Equiv (i₁ j pre) (i₂ j pre)) :
+    expandRuntime n i₁ forks = expandRuntime n i₂ forks :=
+  bfs_congr (fun j pre => (hi j pre).parts_eq) n forks
+
+open Martian.ForkOrder in
+/-- Closed form, all roots statically known: the cartesian product with the FIRST root varying
+fastest (`product (l :: rest) = for every tail of the rest, for every p of l: p :: tail`). -/
+theorem forkOrder_static_closed_form (roots : List Root) (inner : Inner)
+    (h : ∀ r ∈ roots, ∃ e l, r = Root.static e ∧ e.parts = some l) :
+    forkOrder roots inner = product (roots.map Root.initParts) := forkOrder_static roots inner h
+
+open Martian.ForkOrder in
+/-- two roots: `[a₀b₀, a₁b₀, …, a₀b₁, a₁b₁, …]` -/
+theorem product_first_root_fastest (a b : List Part) :
+    product [a, b] = b.flatMap fun y => a.map fun x => [x, y] := product_two a b
+
+open Martian.ForkOrder in
+example : forkOrder [Root.static (.arr 2), Root.static (.arr 3)] (fun _ _ => .unknown)
+    = [[.idx 0, .idx 0], [.idx 1, .idx 0], [.idx 0, .idx 1], [.idx 1, .idx 1], [.idx 0, .idx 2],
+       [.idx 1, .idx 2]] := by decide
+
+open Martian.ForkOrder in
+/-- Closed form, a map call nested in a map call with RAGGED inner sets: every outer element
+with its first inner element (in outer order), then outer element by outer element the
+remaining inner elements.  (This is what the fork-order provocations expect.) -/
+theorem forkOrder_ragged_closed_form (e₀ : Elems) (outer : List Part) (inner : Inner)
+    (fst : Part → Part) (more : Part → List Part) (h₀ : e₀.parts = some outer)
+    (h₁ : ∀ o ∈ outer, (inner 1 [o]).parts = some (fst o :: more o)) :
+    forkOrder [Root.static e₀, Root.dyn] inner
+      = outer.map (fun o => [o, fst o]) ++ outer.flatMap (fun o => (more o).map fun y => [o, y]) :=
+  forkOrder_ragged e₀ outer inner fst more h₀ h₁
+
+open Martian.ForkOrder in
+example : forkOrder [Root.static (.arr 2), Root.dyn]
+      (fun _ pre => if pre == [.idx 0] then .arr 3 else .arr 2)
+    = [[.idx 0, .idx 0], [.idx 1, .idx 0], [.idx 0, .idx 1], [.idx 0, .idx 2], [.idx 1, .idx 1]] := by
+  decide
+
+open Martian.ForkOrder in
+/-- forks_bijection (also the C03 clause "one fork per element / key combination"): when every
+static root is known and every nested source is known and not empty, the list of forks has NO
+DUPLICATES and contains EXACTLY the combinations the sources define — `Valid`: at every root
+one of the elements / keys its source has, given the picks at the earlier roots (ragged sets
+included).  Any number of roots, any nesting depth. -/
+theorem forks_bijection (roots : List Root) (inner : Inner) (hs : StaticKnown roots)
+    (hI : InnerKnown inner)
+    (hSN : ∀ r ∈ roots, ∀ e, r = Root.static e → e.KeysNodup)
+    (hIN : ∀ j pre, (inner j pre).KeysNodup) :
+    (forkOrder roots inner).Nodup ∧
+      ∀ t, t ∈ forkOrder roots inner ↔ Valid inner 0 [] roots t := by
+  have hp := forkOrder_perm_allForks roots inner hs hI
+  refine ⟨hp.nodup_iff.mpr (allForks_nodup inner hIN roots 0 [] hSN), ?_⟩
+  intro t
+  rw [hp.mem_iff]
+  exact mem_allForks inner roots 0 [] t
+
+open Martian.ForkOrder in
+/-- … and it is a permutation of the ragged product enumerated root by root -/
+theorem forks_perm_product (roots : List Root) (inner : Inner) (hs : StaticKnown roots)
+    (hI : InnerKnown inner) : (forkOrder roots inner).Perm (allForks inner 0 [] roots) :=
+  forkOrder_perm_allForks roots inner hs hI
+
+open Martian.ForkOrder in
+/-- non-vacuity of the hypotheses: a static array, a ragged nested map and a third level -/
+example : StaticKnown [Root.static (.arr 2), Root.dyn, Root.dyn] ∧
+    InnerKnown (fun j pre => if j == 1 then (if pre == [.idx 0] then .arr 3 else .arr 1)
+      else .arr 2) := by
+  refine ⟨?_, ?_⟩
+  · intro r hr
+    simp only [List.mem_cons, List.not_mem_nil, or_false] at hr
+    rcases hr with rfl | rfl | rfl
+    · exact Or.inr ⟨_, _, rfl, rfl⟩
+    · exact Or.inl rfl
+    · exact Or.inl rfl
+  · intro j pre
+    by_cases h1 : (j == 1) = true
+    · by_cases h2 : (pre == [Part.idx 0]) = true
+      · exact ⟨.idx 0, [.idx 1, .idx 2], by simp [h1, h2, Elems.parts]; decide⟩
+      · exact ⟨.idx 0, [], by simp [h1, h2, Elems.parts]⟩
+    · exact ⟨.idx 0, [.idx 1], by simp [h1, Elems.parts]; decide⟩
 
 end Props.C10
